@@ -886,7 +886,7 @@ def witnesses(ctx):
 
 # --------------------------------------------------------------------------
 def run(ctx):
-    npairs = 4000 if ctx.thorough else 500
+    npairs = 4000 if ctx.thorough else 400
     nopts = 10 if ctx.thorough else 8
     nw = core.NCPU
     per = (npairs + nw - 1) // nw
